@@ -8,7 +8,7 @@
     validates it on every generated case. *)
 From Coq Require Import List NArith ZArith QArith Bool.
 From MxlBase Require Import ListX.
-From Codegen Require Import Codegen CodegenSpec.
+From Codegen Require Import Codegen CodegenSpec CallArity.
 Import ListNotations.
 Open Scope Q_scope.
 
@@ -55,6 +55,17 @@ Definition fsemQ (f : fnid) (args : list Q) : option Q :=
     Some (let rs := if Qgtb a b then (a, a) else (b, b + a) in snd rs + fst rs * 2)
   | 27%N, [a; b] =>                                                                 (* h_after *)
     Some (let s := if Qgtb a b then a * 2 else b in a + s)
+  (* refused by arity (CPython's own meaning: the defaults filled in) *)
+  | 28%N, [a] => Some (a * 2)                            (* u_default_helper *)
+  | 29%N, [a; g] => Some (a * 2 - g)                     (* u_default_inner *)
+  | 30%N, [a; c] => Some (a * c + (1 # 2))               (* u_default_mid *)
+  | 31%N, [a] => Some (a * 2)                            (* u_default_top *)
+  | 32%N, [a] => Some (a * 2)                            (* u_kwonly *)
+  | 33%N, [a] => Some (a * 2)                            (* u_kwhelper *)
+  | 34%N, [a; _] => Some (a * 2)                         (* u_star *)
+  | 35%N, [a; _] => Some (a * 2)                         (* u_starhelper *)
+  | 36%N, [a] => Some (a * (2 * 3))                      (* u_empty_helper *)
+  | 37%N, [] => Some (2 * 3)                             (* u_empty_top *)
   | _, _ => None
   end.
 
@@ -63,6 +74,60 @@ Definition translatesQ (f : fnid) : bool := N.ltb f 16 || (N.leb 19 f && N.leb f
 
 Definition isemQ (_ : lang) (f : fnid) (args : list Q) : option Q :=
   if translatesQ f then fsemQ f args else None.
+
+(** ---- functions refused BY ARITY (harness/c07_fns.py ids 28..37) ---------------------------
+    Their translatability is not a table entry but COMPUTED by the model of fn_to_sympy's argument
+    binding (CallArity.v) from a description of the function's signature and body; the same
+    descriptions are regenerated from the Python source by the harness and compared (arity
+    correspondence below).  Identifier codes: a Python identifier nXXXX is the name XXXX, the
+    others a = 9101, b = 9102, c = 9103, g = 9104, s = 9105; the model passes 9001, 9002, ... *)
+Definition TQ := texp Q.
+Definition id_a : name := 9101%N.
+Definition id_b : name := 9102%N.
+Definition id_c : name := 9103%N.
+Definition id_g : name := 9104%N.
+Definition id_s : name := 9105%N.
+Definition n11 : name := 11%N.
+Definition margs (k : nat) : list name := firstn k [9001%N; 9002%N; 9003%N].
+
+Definition k_scale : pyfn Q := mkPyFn [id_s] [(n11, 2)] [] false (TMul (TSym id_s) (TSym n11)).
+Definition k_gain : pyfn Q := mkPyFn [id_s] [(id_g, 2)] [] false (TMul (TSym id_s) (TSym id_g)).
+Definition k_lin : pyfn Q := mkPyFn [id_s] [(id_b, 1); (n11, 1 # 2)] [] false (TAdd (TMul (TSym id_s) (TSym id_b)) (TSym n11)).
+Definition k_kw : pyfn Q := mkPyFn [id_s] [] [(n11, 2)] false (TMul (TSym id_s) (TSym n11)).
+Definition k_star : pyfn Q := mkPyFn [id_s] [] [] true (TMul (TSym id_s) (TNum 2)).
+Definition k_two : pyfn Q := mkPyFn [] [(n11, 2)] [] false (TMul (TSym n11) (TNum 3)).
+
+Definition arity_entry (f : fnid) : option (entry Q) :=
+  match f with
+  | 28%N => Some (mkEntry (mkPyFn [id_a] [] [] false (TSym hole)) (Some (k_scale, [TSym id_a])) (margs 1))        (* u_default_helper *)
+  | 29%N => Some (mkEntry (mkPyFn [id_a; id_g] [] [] false (TSub (TSym hole) (TSym id_g))) (Some (k_gain, [TSym id_a])) (margs 2)) (* u_default_inner *)
+  | 30%N => Some (mkEntry (mkPyFn [id_a; id_c] [] [] false (TSym hole)) (Some (k_lin, [TSym id_a; TSym id_c])) (margs 2))  (* u_default_mid *)
+  | 31%N => Some (mkEntry (mkPyFn [id_a] [(n11, 2)] [] false (TMul (TSym id_a) (TSym n11))) None (margs 1))          (* u_default_top *)
+  | 32%N => Some (mkEntry (mkPyFn [id_a] [] [(n11, 2)] false (TMul (TSym id_a) (TSym n11))) None (margs 1))          (* u_kwonly *)
+  | 33%N => Some (mkEntry (mkPyFn [id_a] [] [] false (TSym hole)) (Some (k_kw, [TSym id_a])) (margs 1))             (* u_kwhelper *)
+  | 34%N => Some (mkEntry (mkPyFn [id_a] [] [] true (TMul (TSym id_a) (TNum 2))) None (margs 2))                      (* u_star *)
+  | 35%N => Some (mkEntry (mkPyFn [id_a; id_b] [] [] false (TSym hole)) (Some (k_star, [TSym id_a; TSym id_b])) (margs 2)) (* u_starhelper *)
+  | 36%N => Some (mkEntry (mkPyFn [id_a] [] [] false (TMul (TSym id_a) (TSym hole))) (Some (k_two, [])) (margs 1))     (* u_empty_helper *)
+  | 37%N => Some (mkEntry (mkPyFn [] [(n11, 2)] [] false (TMul (TSym n11) (TNum 3))) None (margs 0))              (* u_empty_top *)
+  | _ => None
+  end.
+
+Definition translate_entryQ := translate_entry Q.
+Definition py_entryQ := py_entry Q Qplus Qminus Qmult.
+Definition tevalQ := teval Q Qplus Qminus Qmult.
+
+(** does fn_to_sympy return an expression for [f], given the form [bk] of its binding statement *)
+Definition translatesQ_at (bk : bind_kind) (f : fnid) : bool :=
+  match arity_entry f with
+  | Some e => match translate_entryQ bk e with Some _ => true | None => false end
+  | None => translatesQ f
+  end.
+
+Definition isemQ_at (bk : bind_kind) (_ : lang) (f : fnid) (args : list Q) : option Q :=
+  if translatesQ_at bk f then fsemQ f args else None.
+Definition generateQ_at (bk : bind_kind) := generate Q (translatesQ_at bk).
+Definition generate_againQ_at (bk : bind_kind) := generate_again Q (translatesQ_at bk).
+Definition execQ_at (bk : bind_kind) := exec Q 0 Qplus Qmult (isemQ_at bk).
 
 Definition generateQ := generate Q translatesQ.
 Definition generate_againQ := generate_again Q translatesQ.
@@ -91,7 +156,10 @@ Record skeleton := mkSk {
   sk_unit : bool
 }.
 
-Inductive gobs := ObsOk (s : skeleton) | ObsKey | ObsUntrans | ObsUntransCoef | ObsOther.
+(** [ObsUntransKey]: generation raised a KeyError that does not come from parameters.pop (all requested
+    free parameters exist): fn_to_sympy's global-name lookup for a keyword-only parameter; the model
+    says "refused", the exception class of that refusal is not modelled *)
+Inductive gobs := ObsOk (s : skeleton) | ObsKey | ObsUntrans | ObsUntransCoef | ObsUntransKey | ObsOther.
 
 Fixpoint list_eqb2 {A B} (eqb : A -> B -> bool) (a : list A) (b : list B) : bool :=
   match a, b with
@@ -118,6 +186,7 @@ Definition gen_eqb (g : gres Q) (o : gobs) : bool :=
     && list_eqb pname_eqb (g_ret p) (sk_ret s)
     && Bool.eqb (g_unit p) (sk_unit s)
   | GErrKey, ObsKey | GErrUntrans, ObsUntrans | GErrUntransCoef, ObsUntransCoef => true
+  | GErrUntrans, ObsUntransKey | GErrUntransCoef, ObsUntransKey => true
   | _, _ => false
   end.
 
@@ -201,31 +270,82 @@ Record ccase := mkCase {
 (** aspects that differ: 1 generated program, 2 cached parameter dict after the call,
     3 specification vs real model values, 4 execution outcome of the text,
     5 the same request a second time *)
-Definition check_case (F : facts) (c : ccase) : list nat :=
-  let g := generateQ F (c_lang c) (c_model c) (c_order c) (c_free c) in
+Definition check_case (bk : bind_kind) (F : facts) (c : ccase) : list nat :=
+  let g := generateQ_at bk F (c_lang c) (c_model c) (c_order c) (c_free c) in
   (if gen_eqb g (c_gen c) then [] else [1%nat])
   ++ (if list_eqb N.eqb (map fst (cache_afterQ F (c_model c) (c_free c))) (c_cache_after c) then [] else [2%nat])
   ++ (if forallb (fun p => optlist_eqb (spec_rhs (c_model c) (c_order c) (c_free c) (pt_fv p) (pt_t p) (pt_y p)) (pt_model p)) (c_points c)
       then [] else [3%nat])
   ++ (match c_second c with
-      | SecSame => if gen_eqb (generate_againQ F (c_lang c) (c_model c) (c_order c) (c_free c)) (c_gen c) then [] else [5%nat]
-      | SecKey => match generate_againQ F (c_lang c) (c_model c) (c_order c) (c_free c) with GErrKey => [] | _ => [5%nat] end
+      | SecSame => if gen_eqb (generate_againQ_at bk F (c_lang c) (c_model c) (c_order c) (c_free c)) (c_gen c) then [] else [5%nat]
+      | SecKey => match generate_againQ_at bk F (c_lang c) (c_model c) (c_order c) (c_free c) with GErrKey => [] | _ => [5%nat] end
       | SecOther => [5%nat]
       end)
   ++ (match g with
       | GOk p =>
         if forallb (fun pt => match pt_exec pt with
                               | OSkip => true
-                              | OOut o => outcome_eqb (execQ F (c_lang c) p (pt_t pt) (pt_y pt) (pt_fv pt)) o
+                              | OOut o => outcome_eqb (execQ_at bk F (c_lang c) p (pt_t pt) (pt_y pt) (pt_fv pt)) o
                               | OUnmodelled => false
                               end) (c_points c)
         then [] else [4%nat]
       | _ => []
       end).
 
-Fixpoint mismatches_from (F : facts) (i : nat) (cs : list ccase) : list nat :=
+Fixpoint mismatches_from (bk : bind_kind) (F : facts) (i : nat) (cs : list ccase) : list nat :=
   match cs with
   | [] => []
-  | c :: r => map (fun a => (i * 8 + a)%nat) (check_case F c) ++ mismatches_from F (S i) r
+  | c :: r => map (fun a => (i * 8 + a)%nat) (check_case bk F c) ++ mismatches_from bk F (S i) r
   end.
-Definition mismatches_of (F : facts) (cs : list ccase) : list nat := mismatches_from F 0 cs.
+Definition mismatches_of (bk : bind_kind) (F : facts) (cs : list ccase) : list nat := mismatches_from bk F 0 cs.
+
+(** ---- arity correspondence: the binding model against the REAL fn_to_sympy ----------------
+    [ac_entry] is the description the harness regenerates from the Python source (signature via
+    inspect, body via ast); [ac_fid] = Some f ties it to the hand-written [arity_entry f].
+    Observed: was the call refused (None / ValueError / KeyError), the names of the result's free
+    symbols (sorted), the result's value at some environments, CPython's value of the function *)
+Record apoint := mkAPt { ap_env : list (name * Q); ap_args : list Q; ap_tr : option Q; ap_py : option Q }.
+Record acase := mkACase {
+  ac_fid : option fnid; ac_entry : entry Q; ac_refused : bool; ac_syms : list name; ac_points : list apoint
+}.
+
+Fixpoint insert_name (n : name) (l : list name) : list name :=
+  match l with
+  | [] => [n]
+  | x :: r => if N.ltb n x then n :: l else if N.eqb n x then l else x :: insert_name n r
+  end.
+Definition sort_names (l : list name) : list name := fold_right insert_name [] l.
+
+Definition optQ_eqb (a b : option Q) : bool :=
+  match a, b with Some x, Some y => Qeq_bool x y | None, None => true | _, _ => false end.
+
+(** aspects: 1 refused or not, 2 free symbols of the translation, 3 its value, 4 CPython's value of
+    the function (the description means what the source means), 5 the hand-written table entry *)
+Definition check_acase (bk : bind_kind) (c : acase) : list nat :=
+  let r := translate_entryQ bk (ac_entry c) in
+  (match r, ac_refused c with Some _, false | None, true => [] | _, _ => [1%nat] end)
+  ++ (match r with
+      | Some e => (if list_eqb N.eqb (sort_names (syms Q e)) (ac_syms c) then [] else [2%nat])
+                  ++ (if forallb (fun p => optQ_eqb (tevalQ (fun n => assoc n (ap_env p)) e) (ap_tr p)) (ac_points c)
+                      then [] else [3%nat])
+      | None => []
+      end)
+  ++ (if forallb (fun p => optQ_eqb (py_entryQ (ac_entry c) (ap_args p)) (ap_py p)) (ac_points c) then [] else [4%nat])
+  ++ (match ac_fid c with
+      | Some f => match arity_entry f with
+                  | Some e => if Bool.eqb (match translate_entryQ bk e with Some _ => true | None => false end)
+                                          (match r with Some _ => true | None => false end)
+                                 && forallb (fun p => optQ_eqb (py_entryQ e (ap_args p)) (ap_py p)) (ac_points c)
+                                 && forallb (fun p => optQ_eqb (fsemQ f (ap_args p)) (ap_py p)) (ac_points c)
+                              then [] else [5%nat]
+                  | None => [5%nat]
+                  end
+      | None => []
+      end).
+
+Fixpoint amismatches_from (bk : bind_kind) (i : nat) (cs : list acase) : list nat :=
+  match cs with
+  | [] => []
+  | c :: r => map (fun a => (i * 8 + a)%nat) (check_acase bk c) ++ amismatches_from bk (S i) r
+  end.
+Definition amismatches_of (bk : bind_kind) (cs : list acase) : list nat := amismatches_from bk 0 cs.
